@@ -79,10 +79,10 @@ func (t *transformer) send(w io.Writer) error {
 	if err := tw.WriteHeader(hdr); err != nil {
 		return err
 	}
-	if _, err := t.f.Seek(0, 0); err != nil {
-		return err
-	}
-	if _, err := io.Copy(tw, t.f); err != nil {
+	// Read through a section reader instead of the shared file offset: the
+	// final (empty) read of this goroutine can happen after the consumer has
+	// everything it needs and Apply has started to seek and copy the same file.
+	if _, err := io.Copy(tw, io.NewSectionReader(t.f, 0, size)); err != nil {
 		return err
 	}
 	return tw.Close()
